@@ -2,7 +2,8 @@
 # Runs every claimed check on the current tree and validates the evidence files.
 # usage: tools/run_all.sh [quick|thorough]
 T=${1:-quick}
-cd /verif
+cd "$(dirname "$0")/.."
+V=$(pwd)
 rc=0
 for p in $(python3 -c "import json;print(' '.join(c['property_id'] for c in json.load(open('MANIFEST.json'))['checks']))"); do
   rm -f evidence/$p.json
@@ -11,6 +12,6 @@ for p in $(python3 -c "import json;print(' '.join(c['property_id'] for c in json
   [ $e -ne 0 ] && { rc=1; echo "$out" | grep -E "VIOLATION|INCONCLUSIVE" | head -5 | cut -c1-300; }
   python3-vt -c "
 import json,jsonschema,sys
-jsonschema.validate(json.load(open('/verif/evidence/$p.json')),json.load(open('/root/.vp/EVIDENCE.schema.json')))" || { echo "$p: evidence invalid"; rc=1; }
+jsonschema.validate(json.load(open('$V/evidence/$p.json')),json.load(open('/root/.vp/EVIDENCE.schema.json')))" || { echo "$p: evidence invalid"; rc=1; }
 done
 exit $rc
